@@ -23,7 +23,7 @@ TRUSTED_BASE = [
     "translator checks/C12.py:gen (regex scrape of MAX_LOAD_FACTOR, GROW_RATE, INIT_CAPACITY in hashmap.nelua; initial capacity and growth multiplier in vector.nelua/sequence.nelua/stringbuilder.nelua; hash seed in hash.nelua)",
     "extraction: Require Extraction + ExtrOcamlBasic only; no Extract Constant of our own; Z/nat stay Coq inductives",
     "ocaml/zutil.ml + coq/C12/driver.ml (text <-> extracted values, op decoding), harness/C12/driver.nelua (op decoding, token<->value maps, dumps through the public observers), OCaml 4.13.1, gcc, the Nelua compiler itself (compiles the driver)",
-    "modelled rather than verified: lib/*.nelua are mirrored by hand in coq/C12/Model.v; the tie is the step-by-step correspondence run on every check",
+    "modelled rather than verified: lib/*.nelua are mirrored by hand in coq/C12/Model.v, one Gallina function per source function (loops as structural recursion or fuel proved sufficient); two loops are modelled by their specification rather than step by step: the in-place shift of filled nodes in hashmap:rehash (stable filter + zeroed tail) and memory.move/spancopy (block overwrite); list nodes live in an arena indexed by allocation order instead of addresses; the tie is the step-by-step correspondence run on every check",
 ]
 ASSUMPTIONS = [
     "sizes are exact naturals in the model: a container whose element count, capacity or size*100 would wrap a 64-bit usize cannot be allocated (hashmap roundpow2 is modelled mod 2^64 and rehash returns a distinguished Overflow outcome if it wrapped)",
@@ -400,7 +400,7 @@ def gen_history(rng, kind, typ, nsteps, maxsize, big=False):
     usize = 2 * maxsize + 4 if big else max(4, min(2 * maxsize + 4, rng.choice([6, 10, 20, 40, 2 * maxsize + 4])))
     univ = universe(rng, typ, kind, usize)
     ths = thresholds(kind, maxsize)
-    target = rng.choice(ths)
+    target = rng.choice(ths[len(ths) // 2:]) if big else rng.choice(ths)
     pick = lambda: rng.choice(univ)
 
     def emit(op, a=0, b=0, c=0):
@@ -409,8 +409,8 @@ def gen_history(rng, kind, typ, nsteps, maxsize, big=False):
 
     for _ in range(nsteps):
         n = o.size()
-        if rng.random() < 0.04:
-            target = rng.choice(ths)
+        if rng.random() < (0.004 if big else 0.04):
+            target = rng.choice(ths[len(ths) // 3:]) if big else rng.choice(ths)
         grow = rng.random() < (0.75 if n < target else 0.3 if n == target else 0.12)
         r = rng.random()
         if kind in (1, 2):
@@ -1010,4 +1010,12 @@ def correspond(ctx):
     }
 
 
-UNPROVED = []
+UNPROVED = [
+    "vector/sequence __convert (initialisation from arrays), sequence:unpack, destroy/__close: not modelled",
+    "stringbuilder write of non-byte arguments (integer/float/boolean formatting), writef/formatarg, __tostring: not modelled (strconv/strprintf are C13/C14 territory)",
+    "hash.hash for pointers, unions, arrays, spans and records with __hash: not modelled; the string hash (hash.long) is modelled and corresponds, its coherence is trivial (byte-wise equality)",
+    "hashmap with NaN float keys: == is not reflexive there, outside the theorems' hypotheses (never generated)",
+    "allocation failure paths (stringbuilder grow returning false, xspanrealloc raising an error): not modelled",
+    "stringbuilder commit guard at full strength is refuted on the unchanged code (known finding); proved only for n >= span length + 2",
+    "independence of the hashmap's observable behaviour from the hash values is not a theorem; the model hashes tokens for non-integer key types and the correspondence shows equal observables",
+]
